@@ -1,18 +1,15 @@
 (* C06Proofs.v — (worker s2) "each typed line reaches exactly the screen that asked".
-   1. chk_C06 without the comparison of the arguments accepts every well-formed session;
-   2. chk_C06 itself accepts every well-formed session in which a screen is always scheduled with the same
-      arguments; it does NOT accept every session (finding F15: InputManager._input_args is per screen);
-   3. pure corollary of acceptance: a line delivered as a successful result is a typed line, unmodified. *)
+   1. chk_C06 (with the comparison of the arguments) accepts every well-formed session: the arguments belong to the
+      request (its handler's callback carries them; fix of finding F15);
+   2. chk_C06_noargs = chk_C06 without the comparison of the arguments; chk_C06 is the stronger one;
+   3. pure corollary of acceptance: a line delivered as a successful result is a typed line, unmodified;
+   4. the legacy model (InputManager._input_args read at delivery time: one slot per screen) and the F15 session. *)
 From SL Require Import Tac.
+From RecordUpdate Require Import RecordUpdate.
 From SL Require Import PyInt LoopSem ScreenSem ScreenMon proofs.InputLink.
 Import ListNotations.
 
-Lemma chk_all_C06n fresh quit nosep w e : chk_all false fresh quit nosep w e = true -> chk_C06_noargs w e = true.
-Proof.
-  unfold chk_all, mchk_all. intros H. rewrite chk06n_abs.
-  apply andb_true_iff in H. destruct H as [H _]. apply andb_true_iff in H. destruct H as [_ H]. exact H.
-Qed.
-Lemma chk_all_C06 fresh quit nosep w e : chk_all true fresh quit nosep w e = true -> chk_C06 w e = true.
+Lemma chk_all_C06 fresh quit nosep w e : chk_all fresh quit nosep w e = true -> chk_C06 w e = true.
 Proof.
   unfold chk_all, mchk_all. intros H. rewrite chk06_abs.
   apply andb_true_iff in H. destruct H as [H _]. apply andb_true_iff in H. destruct H as [_ H]. exact H.
@@ -20,18 +17,10 @@ Qed.
 
 Theorem lines_delivered specs specl typed quit run_empty fuel acts :
   (forall n, specs n = nth n specl default_spec) -> wf_session specl quit acts = true ->
-  sok chk_C06_noargs typed (rev (trace (snd (app_run_all specs specl typed quit run_empty fuel acts)))) = true.
-Proof.
-  intros HS WF. eapply sok_weaken; [apply chk_all_C06n|].
-  apply (all_accepted false false (fun _ => 0) specs specl typed quit run_empty fuel acts HS WF).
-Qed.
-
-Theorem lines_delivered_args fargs specs specl typed quit run_empty fuel acts :
-  (forall n, specs n = nth n specl default_spec) -> wf_session_gen true false fargs specl quit acts = true ->
   sok chk_C06 typed (rev (trace (snd (app_run_all specs specl typed quit run_empty fuel acts)))) = true.
 Proof.
   intros HS WF. eapply sok_weaken; [apply chk_all_C06|].
-  apply (all_accepted true false fargs specs specl typed quit run_empty fuel acts HS WF).
+  apply (all_accepted false specs specl typed quit run_empty fuel acts HS WF).
 Qed.
 
 (* chk_C06 is chk_C06_noargs plus the comparison of the arguments *)
@@ -183,7 +172,61 @@ Definition ex06_trace : list event := rev (trace (snd ex06_run)).
 Definition user_events (tag : nat) (t : list event) : list (list nat * str) :=
   flat_map (fun e => match e with EUser tg a x => if (tg =? tag)%nat then [(a, x)] else [] | _ => [] end) t.
 
-(* ---- finding F15: the arguments handed to input() are the InputManager's latest, not the request's *)
+(* ---- the same two corollaries for chk_C06 itself *)
+Lemma C06_input_only_when_due_full w a t : chk_C06 w (EUser T_INPUT a t) = true -> sw_must_input w <> None.
+Proof. intros H. apply (C06_input_only_when_due w a t), chk_C06_stronger, H. Qed.
+
+Theorem delivered_lines_intact_full typed t1 n text t2 :
+  sok chk_C06 typed (t1 ++ EUser T_READY [n; 1] text :: t2) = true ->
+  streq [] text = true \/ exists l, In l typed /\ streq (line_of l) text = true.
+Proof. intros H. apply (delivered_lines_intact typed t1 n text t2). eapply sok_weaken; [apply chk_C06_stronger|exact H]. Qed.
+
+(* ---- finding F15 (fixed): the arguments handed to input() were the InputManager's latest, not the request's.
+   LEGACY model = the code before the fix: InputHandler's callback was InputManager.process_input itself, which read
+   self._input_args - written by every get_input() of the screen - at delivery time.  Only the ready handler differs:
+   it does not put the request's arguments in place. *)
+Definition legacy_input_ready_handler (specs : nat -> screen_spec) (n : nat) (sg : signal) : sprog :=
+  if negb (sg_a sg =? n)%nat then PRet
+  else
+    wr (upd_ih n (fun h => h <| ih_received := true |> <| ih_success := sg_b sg |>)) ;;
+    evt T_READY [n; b2n (sg_b sg)] (sg_data sg) ;;
+    if negb (sg_b sg) then PRet
+    else
+      wr (upd_ih n (fun h => h <| ih_value := Some (sg_data sg) |>)) ;;
+      rd (fun u => if ih_cb (ih_of u n)
+                   then wr (upd_ih n (fun h => h <| ih_cb := false |>)) ;; process_input specs (ih_owner (ih_of u n)) (sg_data sg)
+                   else PRet).
+Definition legacy_screen_code (specs : nat -> screen_spec) (hid : nat) (sg : signal) (data : nat) : sprog :=
+  if (hid =? H_RENDER)%nat || (hid =? H_CLOSE)%nat || (hid =? H_RECEIVED)%nat then screen_code specs hid sg data
+  else if (10 <=? hid)%nat then legacy_input_ready_handler specs (hid - 10) sg
+  else PRet.
+Fixpoint legacy_app_session (specs : nat -> screen_spec) (fuel : nat) (acts : list saction) (s : lstate sstate)
+  : list outcome * lstate sstate :=
+  match acts with
+  | [] => ([], s)
+  | a :: r =>
+    let '(o, s1) :=
+      match a with
+      | SACmds l => exec (legacy_screen_code specs) fuel (CProg (run_cmds specs 0 0 l)) (emit ETop s)
+      | SARun =>
+        match st_stack (ust s), st_run_empty (ust s) with
+        | [], false => (OThrow XError, emit ETop s)
+        | _, _ => exec (legacy_screen_code specs) fuel CRun (emit ETop s)
+        end
+      end in
+    match o with
+    | OBlocked | OFuel | OThrow XSysExit => ([o], s1)
+    | _ => let '(os, s2) := legacy_app_session specs fuel r s1 in (o :: os, s2)
+    end
+  end.
+Definition legacy_app_run_all (specs : nat -> screen_spec) (specl : list screen_spec) (typed : list (option str))
+           (quit : option nat) (run_empty : bool) (fuel : nat) (acts : list saction) : list outcome * lstate sstate :=
+  let s0 := init_state (sstate0 specl typed quit run_empty) in
+  let '(_, s1) := exec (legacy_screen_code specs) 20 (CProg app_initialize) s0 in
+  legacy_app_session specs fuel acts s1.
+
+(* the F15 session (corpus/screen/F15_args_overwritten.json): run() twice after force_quit; the refused second request
+   of the same screen, scheduled a second time with arguments 2, overwrote InputManager._input_args *)
 Definition f15_spec : screen_spec :=
   {| sc_setup := []; sc_refresh := [SIfCount 1 [] [SForceQuit]]; sc_show := [SIfCount 1 [SPush 0 2] []]; sc_closed := [];
      sc_input := []; sc_input_default := ([], Some RProcessed); sc_prompt_none := false; sc_input_required := true;
@@ -192,3 +235,5 @@ Definition f15_typed : list (option str) := [Some [49%N]; Some [50%N]].
 Definition f15_acts : list saction := [SACmds [SSchedule 0 1]; SARun; SARun].
 Definition f15_trace : list event :=
   rev (trace (snd (app_run_all (fun n => nth n [f15_spec] default_spec) [f15_spec] f15_typed None false 500 f15_acts))).
+Definition f15_legacy_trace : list event :=
+  rev (trace (snd (legacy_app_run_all (fun n => nth n [f15_spec] default_spec) [f15_spec] f15_typed None false 500 f15_acts))).
